@@ -217,14 +217,19 @@ void sqf::fileio::impl_default::add_pbo_mapping(rvutils::pbo::pbofile& pbo)
     }
 
     m_pbos[pbo.path().lexically_normal().string()] = pbo;
-    std::filesystem::path prefix(*prefix_optional);
+    // PBOs separate directories with backslashes, in the prefix as well as in the file names
+    auto prefix_string = *prefix_optional;
+    std::replace(prefix_string.begin(), prefix_string.end(), '\\', '/');
+    std::filesystem::path prefix(prefix_string);
 
 
     // We need to register all files with the virtual pathing
     for (auto& file_desc : pbo.files())
     {
         // Construct file path
-        auto file_path = (prefix / file_desc.name).lexically_normal();
+        auto file_name = file_desc.name;
+        std::replace(file_name.begin(), file_name.end(), '\\', '/');
+        auto file_path = (prefix / file_name).lexically_normal();
         auto path_iter = file_path.begin();
 
         // Navigate to last available virtual file node from root node
@@ -247,7 +252,7 @@ void sqf::fileio::impl_default::add_pbo_mapping(rvutils::pbo::pbofile& pbo)
         {
             ++path_iter;
             std::unordered_map<std::string, std::shared_ptr<path_element>>::iterator nextnav;
-            while ((nextnav = nav->second->next.find(path_iter->string())) != nav->second->next.end() && path_iter != file_path.end())
+            while (path_iter != file_path.end() && (nextnav = nav->second->next.find(path_iter->string())) != nav->second->next.end())
             {
                 nav = nextnav;
                 path_iter++;
@@ -283,6 +288,11 @@ void sqf::fileio::impl_default::add_pbo_mapping(std::filesystem::path p)
     if (m_pbos.find(p.string()) != m_pbos.end())
     {
         log(logmessage::fileio::PBOAlreadyAdded(p.string()));
+        return;
+    }
+    if (!std::filesystem::is_regular_file(p))
+    { // Nothing to load (and nothing must be created in its place)
+        log(logmessage::fileio::FailedToParsePBO(p.string()));
         return;
     }
     rvutils::pbo::pbofile pbo(p);
@@ -355,8 +365,13 @@ std::string sqf::fileio::impl_default::read_file(sqf::runtime::fileio::pathinfo 
             }
             auto prefix = prefix_optional.value();
             auto pbo_path = info.virtual_;
+            // Compare prefix and requested path in one spelling: forward slashes, no leading separator
+            std::replace(prefix.begin(), prefix.end(), '\\', '/');
+            std::replace(pbo_path.begin(), pbo_path.end(), '\\', '/');
+            while (!prefix.empty() && prefix.front() == '/') { prefix.erase(0, 1); }
+            while (!pbo_path.empty() && pbo_path.front() == '/') { pbo_path.erase(0, 1); }
 
-            if (pbo_path.length() > prefix.length() + 1)
+            if (pbo_path.length() > prefix.length() + 1 && pbo_path.compare(0, prefix.length(), prefix) == 0)
             {
                 pbo_path = pbo_path.substr(prefix.length() + 1);
             }
